@@ -57,11 +57,13 @@ def c20(tier, seed):
     shutil.rmtree(d, ignore_errors=True)
     # the lookups at their call sites: every byte as the reason code of a Server DISCONNECT, of the CONNACK and of a Server AUTH
     _sim_part(ck, "C20", tier, seed,
-              "[sim] in situ: 3 x 256 scenarios on the real client (Server DISCONNECT / CONNACK / Server AUTH with every byte as reason "
-              "code); oracle: a code a Server may send is acted upon and reported to the logger with exactly that value, a code MQTT 5 "
-              "does not list for the packet is not acted upon as valid, a refusing CONNACK never establishes the connection")
-    ck.require("sim.c20_insitu_cases", 768)
-    ck.require("sim.c20_insitu_sendable", 40)
+              "[sim] in situ: 11 x 256 scenarios on the real client: every byte as the reason code of a Server DISCONNECT, of the CONNACK, of a "
+              "Server AUTH, and - with a silent broker, so that the scripted packet is the only acknowledgement - of SUBACK, SUBACK with a surplus "
+              "code, UNSUBACK, UNSUBACK with a surplus code, PUBACK, PUBREC, PUBCOMP and of the PUBREL of an inbound QoS 2 message; oracle: a code a "
+              "Server may send is acted upon and reported (logger / completion handler / PUBREL / PUBCOMP answer) with exactly that value, a byte MQTT 5 "
+              "does not list for the packet never takes part in a successful completion, a refusing CONNACK never establishes the connection")
+    ck.require("sim.c20_insitu_cases", 2816)
+    ck.require("sim.c20_insitu_sendable", 80)
     return ck.finish()
 
 
@@ -257,14 +259,16 @@ def c19(tier, seed):
               "real client vs hostile broker bytes in four phases (instead of CONNACK, right after CONNACK, with requests awaiting replies, mid "
               "QoS 2): structured length-field mutations and byte mutations of every server packet type, aimed at outstanding packet ids; each "
               "stream is replayed under three chunkings (one read, single bytes, random cuts) at one virtual instant; oracles: no sanitizer report, "
-              "no exception out of poll(), no assertion, no handler livelock, no successful completion without a genuine well-formed ack (C01/C14 "
-              "monitors), identical client responses up to its DISCONNECT whatever the chunking, and a publish issued afterwards completes within 90 "
+              "no exception out of poll(), no assertion, no handler livelock, no request completing successfully while the silent broker's hostile bytes contain no well-formed "
+              "acknowledgement of its kind with its packet id, listed reason codes and one code per topic (acknowledgements whose only defect is an unlisted "
+              "or surplus reason code are generated on purpose), identical client responses up to its DISCONNECT whatever the chunking, and a publish issued afterwards completes within 90 "
               "virtual seconds. " + SHAPE)
     ck.require("codec_probe.length_field_mutations")
     ck.require("codec_probe.lib_rejected")
     ck.require("sim.hostile_runs", 100)
     ck.require("sim.chunking_comparisons", 50)
     ck.require("sim.recovery_publishes_acknowledged", 500)
+    ck.require("sim.requests_exposed_to_hostile_acknowledgements", 500)
     return ck.finish()
 
 
